@@ -347,3 +347,46 @@ func verifCLITranslate(a, b JsonNode, mode int) string {
 
 // verifCLITranslateDiff: the diff translations (modes 1 and 2 of verifCLITranslate) over document pairs.
 func verifCLITranslateDiff(a, b JsonNode, mode int) string { return verifCLITranslate(a, b, mode) }
+
+// verifCLIAgree (C14): the v2/jd binary and the top-level binary (which uses the v2 library by
+// default) are two front ends of one library: for the same arguments and inputs they print the same
+// bytes and exit with the same status. The argument sets include malformed and rejected flag values.
+func verifCLIAgree(i int) string {
+	bins := []string{os.Getenv("VERIF_JD_BIN"), os.Getenv("VERIF_JDTOP_BIN")}
+	if bins[0] == "" || bins[1] == "" {
+		return "binaries not built"
+	}
+	dir, err := os.MkdirTemp("", "verifcli")
+	if err != nil {
+		return err.Error()
+	}
+	defer os.RemoveAll(dir)
+	fa, fb := filepath.Join(dir, "a"), filepath.Join(dir, "b")
+	os.WriteFile(fa, []byte(`[{"id":1,"first name":"ann","v":1},{"id":2,"first name":"bob","v":2.04}]`), 0o644)
+	os.WriteFile(fb, []byte(`[{"id":2,"first name":"bob","v":2},{"id":1,"first name":"ann","v":1}]`), 0o644)
+	sets := verifArgSets()
+	args := append(append([]string{}, sets[i%len(sets)]...), fa, fb)
+	r0 := verifExec(bins[0], "", args...)
+	r1 := verifExec(bins[1], "", args...)
+	// (on errors only the status is compared: usage and error texts name the binary and its own flags)
+	if r0.exit != r1.exit || (r0.exit != 2 && r0.stdout != r1.stdout) {
+		return fmt.Sprintf("%v: v2/jd exits %d with %q, top-level exits %d with %q", sets[i%len(sets)], r0.exit, r0.stdout, r1.exit, r1.stdout)
+	}
+	for bi, r := range []verifRun{r0, r1} {
+		if strings.Contains(r.stderr, "goroutine") {
+			return fmt.Sprintf("binary %d %v: stack trace", bi, sets[i%len(sets)])
+		}
+	}
+	return ""
+}
+
+func verifArgSets() [][]string {
+	return [][]string{
+		{}, {"-set"}, {"-mset"}, {"-setkeys", "id"}, {"-setkeys", "id,v"}, {"-setkeys", " id , v "}, {"-setkeys", "id,"}, {"-setkeys", ",id"}, {"-setkeys", "id,,v"},
+		{"-setkeys", "id, ,v"}, {"-setkeys", ""}, {"-setkeys", " "}, {"-setkeys", "first name"}, {"-setkeys", "first name,id"}, {"-precision", "0.1"}, {"-precision", "0"},
+		{"-precision", "-1"}, {"-precision", "x"}, {"-precision", "0.1", "-set"}, {"-precision", "0.1", "-mset"}, {"-precision", "0.1", "-setkeys", "id"}, {"-set", "-mset"},
+		{"-f", "jd"}, {"-f", "patch"}, {"-f", "merge"}, {"-f", "bogus"}, {"-f", ""}, {"-f", "merge", "-set"}, {"-f", "patch", "-set"}, {"-f", "patch", "-setkeys", "id"},
+		{"-yaml"}, {"-yaml", "-set"}, {"-color"}, {"-color", "-f", "patch"}, {"-p"}, {"-p", "-f", "patch"}, {"-p", "-f", "merge"}, {"-p", "-set"}, {"-t", "bogus"}, {"-t", "jd2patch"},
+		{"-p", "-t", "jd2patch"}, {"-o"}, {"-bogus"}, {"-set=false"}, {"-mset", "-setkeys", "id"}, {"-set", "-setkeys", "id"}, {"-set", "-setkeys", "id,first name"},
+	}
+}
